@@ -1127,6 +1127,102 @@ func (c *checker) sequence(r *rand.Rand) {
 	}
 }
 
+// failHistory runs histories of two queries: (1) a filtered query that FAILS
+// part-way — a harness switch makes the per-element filter funcs return an
+// error for one late element after earlier elements already matched a broad
+// filter text (its error is expected and not judged); (2) immediately
+// afterwards a query filtered through batch filter fields with a text that
+// few elements match, compared with the model as usual. Whatever the failed
+// query had matched must not leak into the second one.
+func (c *checker) failHistory(r *rand.Rand, reps int) {
+	cd := c.cd
+	if len(cd.items) < 2 {
+		return
+	}
+	savedView, savedFlag := cd.v, cd.env.filterBatchFlag
+	defer func() {
+		cd.v, cd.env.filterBatchFlag = savedView, savedFlag
+		cd.env.failID, cd.env.failBatch = "", false
+		c.setList()
+	}()
+	var perNode, batchOnly, bf []filterSpec
+	for _, f := range cd.conn.filters {
+		switch f.kind {
+		case kBatch:
+			batchOnly = append(batchOnly, f)
+		case kBatchFallback:
+			bf = append(bf, f)
+		default:
+			perNode = append(perNode, f)
+		}
+	}
+	for rep := 0; rep < reps; rep++ {
+		// (1) the failing query; batch-with-fallback fields run their per-element fallback
+		cd.env.filterBatchFlag = false
+		cands := append(append([]filterSpec{}, perNode...), bf...)
+		fv := view{hasFilterText: true, filterText: "a b c d", hasFields: true}
+		fv.fields = []string{cands[r.Intn(len(cands))].name}
+		if r.Intn(2) == 0 {
+			fv.fields = append(fv.fields, cands[r.Intn(len(cands))].name)
+		}
+		if len(batchOnly) > 0 && r.Intn(2) == 0 {
+			fv.fields = append(fv.fields, batchOnly[r.Intn(len(batchOnly))].name)
+		}
+		late := len(cd.items) - 1 - r.Intn(2)
+		cd.env.failID = cd.items[late].id
+		cd.env.failBatch = r.Intn(4) == 0
+		var w wireArgs
+		if r.Intn(2) == 0 {
+			w.first = genLimit(r, len(cd.items))
+		}
+		q, vars := render(cd.conn, fv, w, r.Intn(3) == 0)
+		_, _, err := c.ex.run(cd, q, vars)
+		if err != nil {
+			c.run.Count("history:failing_query_returned_error", 1)
+		} else {
+			c.run.Count("history:failing_query_succeeded", 1)
+		}
+		cd.env.failID, cd.env.failBatch = "", false
+
+		// (2) the query under observation: batch-filtered, narrow text
+		cd.env.filterBatchFlag = true
+		vv := view{hasFilterText: true}
+		switch r.Intn(10) {
+		case 0, 1, 2:
+			vv.filterText = `""` // empty token: nothing passes
+		case 3, 4, 5:
+			vv.filterText = `"` + randCase(r, word(r, 2)+" "+word(r, 2)) + `"`
+		default:
+			vv.filterText = randCase(r, word(r, 3))
+		}
+		if r.Intn(10) < 7 {
+			vv.hasFields = true
+			bc := append(append([]filterSpec{}, batchOnly...), bf...)
+			vv.fields = []string{bc[r.Intn(len(bc))].name}
+			if r.Intn(3) == 0 {
+				vv.fields = append(vv.fields, bc[r.Intn(len(bc))].name)
+			}
+		}
+		cd.v = vv
+		c.setList()
+		c.run.Count("history:pairs", 1)
+		if len(c.l) < len(cd.items) {
+			c.run.Count("history:observed_query_filter_removes_elements", 1)
+		}
+		if r.Intn(3) == 0 {
+			c.walk(true, 1+r.Intn(len(cd.items)), false, false)
+		} else {
+			var w2 wireArgs
+			var a2 pageArgs
+			if r.Intn(2) == 0 {
+				w2.first = genLimit(r, len(cd.items))
+				a2.first = w2.first
+			}
+			c.checkPage("after_failed_query", w2, a2, r.Intn(3) == 0)
+		}
+	}
+}
+
 func runCase(run *vlib.Run, ex *executor, i int) {
 	r := run.Rand("case", i)
 	ci := r.Intn(len(conns))
@@ -1252,6 +1348,9 @@ func runCase(run *vlib.Run, ex *executor, i int) {
 			c.sequence(r)
 		}
 	}
+	// histories: a filtered query that fails, then a batch-filtered query
+	c.failHistory(r, 4)
+
 	for k := 0; k < nCounters; k++ {
 		run.Count("calls:"+counterNames[k], int(atomic.LoadInt64(&env.calls[k])))
 	}
@@ -1267,6 +1366,7 @@ func TestCheck(t *testing.T) {
 		"(first or last in {0,1,<len,=len,>len}; after/before valid first/middle/last, unknown = garbage / empty / base64 of a missing key / cursor of a filtered-out element; both cursors ordered, adjacent, same, inverted), " +
 		"and 2 prepared-query sequences: Parse + PrepareQuery ONCE, then 4-6 executions of the same *graphql.Query object while the mutable store behind the resolver grows (append / prepend / insert) and shrinks between executions " +
 		"(first only, first + after the newest element, last only, last + before the oldest element, random; initial store often empty or smaller than first/last), each execution compared with the model on the then-current list; " +
+		"and 4 two-query histories per case: a filtered query made to FAIL part-way (harness switch: per-element plain/Expensive/fallback filter funcs, sometimes batch funcs, return an error for a late element after earlier ones matched a broad text; its error is not judged) immediately followed by a batch-filtered first-page query or forward walk with a narrow text, compared with the model; cases run 8 at a time in one process; " +
 		"arguments as literals or as variables; with and without batch.WithBatching. " +
 		"One evaluation = one executed query compared with the reference model. Non-trivial = page cut short by first/last, or filter text with tokens, or duplicate sort values among the listed elements, or both cursors given; " +
 		"distinct = (query kind, connection, list/filtered size buckets, filter/sort configuration, argument pattern, expected page shape).")
